@@ -212,14 +212,47 @@ def attach_loop_contracts(text, loops, what):
     return text, len(heads)
 
 
+def loop_body_span(text, head):
+    """(open_brace, close_brace) of the body of the loop whose head is (kw_start, close_paren)"""
+    k = head[1] + 1
+    while k < len(text) and text[k].isspace():
+        k += 1
+    if k >= len(text) or text[k] != '{':
+        raise ExtractionBroken('loop body is not a braced block')
+    return k, match_close(text, k, '{', '}')
+
+
 def insert_ghosts(text, ghosts, what):
+    """ghost statements at regex anchors (after=/before=) or at loop-relative positions
+    (at = "body_start:K" | "body_end:K" | "after:K" | "before:K" | "end" | "start", K = loop ordinal)"""
+    ins = []
     for g in ghosts:
+        if re.search(r'\b(for|while)\s*\(', g['text']):
+            raise ExtractionBroken('%s: ghost text must not contain loops' % what)
+        if 'at' in g:
+            at = g['at']
+            if at == 'start':
+                pos = text.index('{') + 1
+            elif at == 'end':
+                pos = text.rindex('}')
+            else:
+                kind, k = at.split(':')
+                heads = loop_heads(text)
+                k = int(k)
+                if k < 1 or k > len(heads):
+                    raise ExtractionBroken('%s: ghost position %s but body has %d loops' % (what, at, len(heads)))
+                b, e = loop_body_span(text, heads[k - 1])
+                pos = {'body_start': b + 1, 'body_end': e, 'after': e + 1, 'before': heads[k - 1][0]}[kind]
+            ins.append((pos, g['text']))
+            continue
         rx = g.get('after') or g.get('before')
         ms = list(re.finditer(rx, text))
         want = int(g.get('count', 1))
         if len(ms) != want:
             raise ExtractionBroken('%s: ghost anchor %r matched %d times (need %d)' % (what, rx, len(ms), want))
-        for m in reversed(ms):
-            pos = m.end() if 'after' in g else m.start()
-            text = text[:pos] + ' ' + g['text'].strip() + ' ' + text[pos:]
+        for m in ms:
+            ins.append((m.end() if 'after' in g else m.start(), g['text']))
+    # stable: later-listed ghosts at the same position come later in the text
+    for idx, (pos, t) in sorted(enumerate(ins), key=lambda x: (-x[1][0], -x[0])):
+        text = text[:pos] + ' ' + t.strip() + ' ' + text[pos:]
     return text
